@@ -111,6 +111,12 @@ func newCliWorker(root string, id int) *cliWorker {
 
 // newCliWorkerWithSink: auditPath "" = audit.log in the worker's directory
 func newCliWorkerWithSink(root, name, auditPath string) *cliWorker {
+	return newCliWorkerWithKeys(root, name, auditPath, "")
+}
+
+// newCliWorkerWithKeys: keysYAML "" = the two fixture keys rsaA and p256A, each
+// a key section of its own name; otherwise the text of the keys: section
+func newCliWorkerWithKeys(root, name, auditPath, keysYAML string) *cliWorker {
 	w := &cliWorker{dir: filepath.Join(root, name)}
 	if err := os.MkdirAll(w.dir, 0o755); err != nil {
 		panic(err)
@@ -121,6 +127,13 @@ func newCliWorkerWithSink(root, name, auditPath string) *cliWorker {
 		w.audit = filepath.Join(w.dir, "audit.log")
 	}
 	k := relicx.KeyDir
+	if keysYAML != "" {
+		conf := fmt.Sprintf("tokens:\n  tok:\n    type: file\n    pin: \"\"\nkeys:\n%sauditfile: %s\n", keysYAML, w.audit)
+		if err := os.WriteFile(w.conf, []byte(conf), 0o644); err != nil {
+			panic(err)
+		}
+		return w
+	}
 	conf := fmt.Sprintf(`tokens:
   tok:
     type: file
